@@ -10,7 +10,7 @@ class C03(CoreProp):
     id = "C03"
     prop_module = "Props.C03"
     prop_file = "Props/C03.v"
-    coq_targets = ["Props/C03.vo", "Run/Judge_Core.vo"]
+    coq_targets = ["Props/C03.vo", "Run/Judge_Core.vo", "Props/Tables.vo"]
     sizes = {"quick": 350, "thorough": 10000}
     shard = 24
     design_ref = "DESIGN.md section 6/C03"
